@@ -52,6 +52,23 @@ def run(tier, seed, replay):
     for inv in r.violated:
         v.violation("run:spec:" + inv, "Runner.tla violates %s" % inv, {"tlc": r.out[r.out.find("Error:"):][:4000]})
     cases = vlib.tlc_replay_lines(r.out)
+    # the schedules are LISTS in the real interface: give them in arbitrary order and with duplicates (same set, same meaning)
+    rng0 = random.Random(seed + 12)
+    for c in cases:
+        for key in ("ints", "resets"):
+            if key in c and c[key]:
+                lst = list(c[key])
+                k = rng0.randrange(4)
+                if k == 1:
+                    lst = lst + [rng0.choice(lst)]
+                elif k == 2:
+                    lst = [lst[0]] + lst
+                elif k == 3:
+                    lst = lst + lst
+                    rng0.shuffle(lst)
+                else:
+                    lst.reverse()
+                c[key] = lst
     p = os.path.join(vlib.WORK, "runner_cases.ndjson")
     vlib.write_ndjson(p, cases)
     # (a) the library: RunnerConfig::run and RunExpectations::verify on every configuration
